@@ -521,9 +521,12 @@ class CGenerator:
             s += " ".join(n.storage) + " "
         if n.align:
             s += " ".join(self.visit(a) for a in n.align) + " "
-        if n.quals and isinstance(n.type, (c_ast.Struct, c_ast.Union, c_ast.Enum)):
-            # A bare tag declaration ('const struct S;') has no TypeDecl to
-            # carry the qualifiers.
+        if n.quals and isinstance(
+            n.type, (c_ast.Struct, c_ast.Union, c_ast.Enum, c_ast.IdentifierType)
+        ):
+            # A bare tag declaration ('const struct S;') or a member declaration
+            # without a declarator ('const int;') has no TypeDecl to carry the
+            # qualifiers.
             s += " ".join(n.quals) + " "
         s += self._generate_type(n.type)
         return s
